@@ -69,7 +69,7 @@ Task(e) ==
 Flt(e) ==
   /\ st.healthy
   /\ \E k \in Faults :
-       \E t \in (CASE k = "cutsrc" -> CutSrc(st, e) [] k = "endsrc" -> EndSrc(st, e)
+       \E t \in (CASE k \in {"cutsrc", "cutsrcs"} -> CutSrc(st, e) [] k = "endsrc" -> EndSrc(st, e)
                    [] k = "cutsink" -> CutSink(st, e) [] k = "softcut" -> SoftCutSink(st, e) [] OTHER -> {}) :
           Rec2(t, [op |-> "fault", e |-> e, kind |-> k])
 
